@@ -1975,26 +1975,26 @@ func versPred(t *Term) (pol int, exact bool) {
 // negation, or a flag that was assigned from it (in g or in a caller that passes it down).
 // With exactOnly the condition must be the predicate on every alternative (no "initially false").
 func (m *Model) versCutIn(g *ssa.Function, fr *frame, equalSide, exactOnly bool) *cut {
-		c := newCut()
-		te := m.newTermEval()
-		for _, iff := range allIfs(g) {
-			pol, exact := versPred(te.term(iff.Cond, iff, fr))
-			if pol == 0 || exactOnly && !exact {
+	c := newCut()
+	te := m.newTermEval()
+	for _, iff := range allIfs(g) {
+		pol, exact := versPred(te.term(iff.Cond, iff, fr))
+		if pol == 0 || exactOnly && !exact {
+			continue
+		}
+		// pol=+1: true edge ⇒ version == 0; if exact, false edge ⇒ version != 0
+		// pol=-1: true edge ⇒ version != 0; if exact, false edge ⇒ version == 0
+		trueIsEqual := pol == 1
+		for i, s := range iff.Block().Succs {
+			edgeEqual := trueIsEqual == (i == 0)
+			if edgeEqual != equalSide {
 				continue
 			}
-			// pol=+1: true edge ⇒ version == 0; if exact, false edge ⇒ version != 0
-			// pol=-1: true edge ⇒ version != 0; if exact, false edge ⇒ version == 0
-			trueIsEqual := pol == 1
-			for i, s := range iff.Block().Succs {
-				edgeEqual := trueIsEqual == (i == 0)
-				if edgeEqual != equalSide {
-					continue
-				}
-				if !exact && !edgeEqual {
-					continue // a flag that may still hold its initial value proves "new" only
-				}
-				c.cutEdge(iff.Block(), s)
+			if !exact && !edgeEqual {
+				continue // a flag that may still hold its initial value proves "new" only
 			}
+			c.cutEdge(iff.Block(), s)
 		}
-		return c
 	}
+	return c
+}
